@@ -739,6 +739,10 @@ class Executor:
             else:
                 raise Unsupported("subscript store into a non-name")
         elif isinstance(target, ast.Attribute):
+            if target.attr.startswith("__") and target.attr.endswith("__"):
+                for s2, b in self.eval(target.value, st):
+                    if type(b).__name__ == "PartialVal":
+                        return  # naming metadata of a functools.partial object: no effect on what it computes
             raise Unsupported("attribute store")
         else:
             raise Unsupported(f"assignment target {type(target).__name__}")
